@@ -34,7 +34,7 @@ CHECKS = {
          "Generated-input exploration close to exhaustive on the small dimensions: all 12 carriers x all widths x all 8 alignments (thorough: offsets 0..=71) x 3 backgrounds x all values for narrow fields / boundary, one-hot and random values for wide ones, plus every overrunning (offset,width) on 1..3-byte buffers.",
          "needs the cfg(rtcm_rs_verif) re-export; hook adds no behaviour", "§3 C07"),
  "C08": ("enumerator", "exhaustive enumeration of all 2^w bit patterns per data field (w<=30 quick, w<=32 thorough) with a decode->encode identity oracle through an own bit reader/writer (hook), encoding over 0xFF- and 0x00-filled buffers",
-         "Exhaustive for every field up to the width bound (quick 30 bits: 266 of 309 fields, thorough 32 bits: 300 of 309 fields); boundary windows, one-hot and large random samples for wider fields backed by the error-bound argument in DESIGN.md; hand-written bias codecs enumerated completely through frames.",
+         "Exhaustive for every field up to the width bound (quick 30 bits: 266 of 309 fields, thorough 32 bits: 300 of 309 fields); boundary windows, one-hot and large random samples for wider fields backed by the error-bound argument in DESIGN.md; hand-written bias codecs enumerated completely through frames; MSM frames with random patterns and a dictionary of domain constants over every faithful bit window of the all-zero golden frames at message level.",
          "needs the hook; the list of sign-magnitude fields is pinned from the standard", "§3 C08"),
  "C11": ("sampler", "stratified generation of real inputs between adjacent grid points per float field, oracle = neighbour membership + half-step bound with derived float slack + monotonicity (hook); bias lists in arbitrary caller order and position independence inside full list messages, both through messages; run against the crate built with and without its std feature",
          "Generated-input exploration over all float-typed fields: grid indexes at range ends, zero, powers of two and random; 16 interpolation points per interval including both sides of the half step; bias lists in caller order; position independence inside full-length list messages. Tolerance derived from the rounding steps, not tuned.",
@@ -46,7 +46,7 @@ CHECKS = {
          "Generated-input exploration of the encoder over all supported types: type-directed mutations reach out-of-range, NaN/inf, full lists, inconsistent satellite/signal sets; every numeric leaf of two bases per type is set to 15 extreme values; both build profiles.",
          "all values constructed through public fields/constructors (serde is the construction vehicle only)", "§3 C09"),
  "C01": ("proptest+generators", "property-based testing (proptest recipes over the serde value tree, shrinking) for the encoder side + structure-aware frame generators for the decoder side; oracle = round trip / normal form / fixed point",
-         "Generated-input exploration over all supported types: (A) accepted messages decode to their own variant and re-encode byte-identically under the stated precondition (evaluated on the input), (B) decoded messages accepted by the encoder are fixed points up to 1059/1065 group order.",
+         "Generated-input exploration over all supported types: (A) accepted messages decode to their own variant and re-encode byte-identically under the stated precondition (evaluated on the input), (B) decoded messages accepted by the encoder are fixed points up to 1059/1065 group order; (A') the one-hot / low-mask grid values of every float field, computed from the field resolutions, in every float leaf.",
          "precondition predicate uses SSR signal tables pinned in the harness; only decoded messages are compared with ==", "§3 C01"),
  "C12": ("proptest", "stateful property-based testing (proptest): generated build-call histories over a pool of messages, fresh-builder differential at every step, shrinking of the history; systematic sandwich [T,U,T], retry and residue-probe histories; thorough tier adds a coverage-guided libFuzzer target (builder_history) with the same oracle",
          "Model-based exploration of builder histories: pool of ~2600 messages (every type, every list filled to capacity, refused-early and refused-late messages), histories of up to 12 calls plus target (half of them with the target or a same-type neighbour also earlier in the history), every accepted message sandwiched around every refused one; the reused builder must match a fresh builder at every step.",
